@@ -256,6 +256,131 @@ ORACLES.update({
     "binary_writes_in_sequence": (binary_writes_in_sequence, ("C05", "C06", "C19")),
 })
 
+# ------------------------------------------------------------------------------------------ relational operators / JSON / currency
+def _repeat_after(observed, interfering, watch=()):
+    """observed: name -> thunk returning a Triangle (or list of pairs); run all, run the interfering thunks (errors
+    ignored), run all again: strictly the same results; `watch`: (label, object, snapshot) argument lists that must not change"""
+    def canon(r):
+        if hasattr(r, "cells"):
+            return ("tri", _canon(r.cells))
+        if isinstance(r, list):
+            return ("pairs", [tuple(None if c is None else _canon([c])[0] for c in p) for p in r])
+        return ("val", repr(r))
+
+    ref = {k: _run(f) for k, f in observed.items()}
+    for f in interfering:
+        _run(f)
+    fails = []
+    for label, obj, snap in watch:
+        if repr(obj) != snap:
+            fails.append(f"the argument {label} was modified by a call: {snap} -> {obj!r}")
+    for k, f in observed.items():
+        st, r = _run(f)
+        st0, r0 = ref[k]
+        if st != st0 or (st == "ok" and canon(r) != canon(r0)) or (st == "err" and type(r) is not type(r0)):
+            fails.append(f"{k}: {('raised ' + repr(r0)) if st0 == 'err' else 'a result'} before, "
+                         f"{('raised ' + repr(r)) if st == 'err' else 'a different result'} after earlier calls with other arguments")
+    return fails
+
+
+def relational_ops_after_other_calls():
+    """join / merge / coalesce / period_merge / add_statics give the same result before and after calls with other join
+    types, `on` lists, suffixes, static lists (some refused) - C10; the lists passed as arguments come back unchanged."""
+    from bermuda import CumulativeCell, Metadata, Triangle
+    from bermuda.utils import add_statics, coalesce, join, merge, period_merge
+
+    def tri(field, country, basis, n, extra=None):
+        return Triangle([CumulativeCell(D(2020, 1, 1), _mend(2020, 12), _mend(2020 + k, 12),
+                                        {field: 10 * k + 1, **(extra or {})}, Metadata(country=country, risk_basis=basis))
+                         for k in range(n)])
+
+    a = tri("paid_loss", "DE", "Accident", 3)
+    b = tri("reported_loss", "DE", "Policy", 2, {"earned_exposure": 5.5})
+    c = tri("paid_loss", "DE", "Accident", 4, {"earned_premium": 100})
+    on = ["country"]
+    statics = ["earned_premium", "earned_exposure"]
+    observed = {
+        "join(a, b)": lambda: join(a, b),
+        "join(a, b, 'right', on=['country'])": lambda: join(a, b, "right", on=list(on)),
+        "join(a, b, 'left_anti', on=['country'])": lambda: join(a, b, "left_anti", on=list(on)),
+        "merge(a, c)": lambda: merge(a, c),
+        "merge(a, b, on=['country'])": lambda: merge(a, b, on=list(on)),
+        "coalesce([a, c])": lambda: coalesce([a, c]),
+        "add_statics(a, c)": lambda: add_statics(a, c),
+        "add_statics(a, b)": lambda: add_statics(a, b),
+        "period_merge(a, c.right_edge)": lambda: period_merge(a, c.right_edge),
+    }
+    interfering = [
+        lambda: join(a, b, "inner", on=on), lambda: join(b, a, "right_anti", on=["risk_basis"]), lambda: join(a, b, "nope"),
+        lambda: merge(b, a, "right", on=on), lambda: merge(a, b, "inner", on=["country", "currency"]),
+        lambda: coalesce([c, a, b]), lambda: coalesce([]),
+        lambda: add_statics(a, c, statics), lambda: add_statics(a, b, ["earned_premium", "nope"]), lambda: add_statics(b, a, []),
+        lambda: period_merge(a, c.right_edge, suffix="_x"), lambda: period_merge(a, c),
+    ]
+    return _repeat_after(observed, interfering, [("on", on, repr(["country"])), ("statics", statics, repr(["earned_premium", "earned_exposure"]))])
+
+
+def json_after_other_calls():
+    """to_json / from_json / to_dict / from_dict give the same text and the same triangle before and after other
+    exports / imports (another triangle, a refused import of invalid text) - C07"""
+    import json as _json
+
+    from bermuda import Triangle
+    from bermuda.io.json import json_string_to_triangle as loads
+
+    a, b = _tri_for_binary("DE"), _tri_for_binary(None, n=2)
+    ta, tb = a.to_json(), b.to_json()
+    observed = {
+        "loads(to_json(a))": lambda: loads(a.to_json()),
+        "from_dict(to_dict(b))": lambda: Triangle.from_dict(b.to_dict()),
+        "to_json(a) text": lambda: _json.loads(a.to_json()),
+        "loads(text of a)": lambda: loads(ta),
+    }
+    interfering = [lambda: loads(tb), lambda: loads("{not json"), lambda: loads(ta[: len(ta) // 2]), lambda: Triangle.from_json("/nonexistent.json"),
+                   lambda: Triangle.from_dict({"slices": [{"cells": [{"period_start": "x"}]}]}), lambda: b.to_json(), lambda: Triangle([]).to_json()]
+    fails = _repeat_after(observed, interfering)
+    st, r = _run(lambda: loads(ta))
+    if st != "ok" or _canon(r.cells) != _canon(a.cells):
+        fails.append(f"json_string_to_triangle(to_json(a)) is not a after the other calls ({r!r})"[:300])
+    return fails
+
+
+def currency_after_other_calls():
+    """convert_currency gives the same amounts before and after conversions with other rate tables / targets (some
+    refused); the rate dict passed in comes back unchanged - C18"""
+    from bermuda import CumulativeCell, Metadata, Triangle
+    from bermuda.utils import convert_currency
+
+    t = Triangle([CumulativeCell(D(2020, 1, 1), _mend(2020, 12), _mend(2020 + k, 12),
+                                 {"paid_loss": 100 * (k + 1), "reported_claims": 3 + k, "earned_premium": np.array([10.0, 20.0])},
+                                 Metadata(currency=cur)) for cur in ("GBP", "USD", "EUR") for k in range(2)])
+    rates = {"GBP": 1.25, "EUR": 1.5}
+    observed = {     # the refusal first: the reference run itself must not be able to supply what it lacks
+        "convert_currency(t, 'USD', {'GBP': 1.25}) [no EUR rate: refused]": lambda: convert_currency(t, "USD", {"GBP": 1.25}),
+        "convert_currency(t, 'USD', rates)": lambda: convert_currency(t, "USD", rates),
+        "convert_currency(t, 'USD', copy of rates)": lambda: convert_currency(t, "USD", dict(rates))}
+    interfering = [lambda: convert_currency(t, "EUR", {"GBP": 2.0, "USD": 0.5}), lambda: convert_currency(t, "JPY", {}),
+                   lambda: convert_currency(t, "USD", {"EUR": 7.0, "GBP": 1.0, "CHF": 2.0}),
+                   lambda: convert_currency(t, "USD", {"GBP": 3.0}), lambda: convert_currency(t, "GBP", {"USD": 1.0, "EUR": 1.0, "GBP": 9.0})]
+    fails = _repeat_after(observed, interfering, [("exchange_rates", rates, repr({"GBP": 1.25, "EUR": 1.5}))])
+    st, r = _run(observed["convert_currency(t, 'USD', rates)"])
+    if st == "ok":
+        for c0, c1 in zip(sorted(t.cells, key=lambda c: (c.metadata.currency, c.evaluation_date)),
+                          sorted(r.cells, key=lambda c: 0)):
+            pass
+        got = sorted((c["paid_loss"], c["reported_claims"]) for c in r.cells)
+        want = sorted((c["paid_loss"] * {"GBP": 1.25, "EUR": 1.5, "USD": 1}[c.metadata.currency], c["reported_claims"]) for c in t.cells)
+        if got != want:
+            fails.append(f"convert_currency amounts {got} are not the source amounts times the rate {want}")
+    return fails
+
+
+ORACLES.update({
+    "relational_ops_after_other_calls": (relational_ops_after_other_calls, ("C10",)),
+    "json_after_other_calls": (json_after_other_calls, ("C07",)),
+    "currency_after_other_calls": (currency_after_other_calls, ("C18",)),
+})
+
 
 def run_for(ctx, prop):
     """run every sequence oracle relevant to `prop`; report failures as concrete violations"""
